@@ -15,7 +15,7 @@ for d in sorted(glob.glob('/verif/seeded/*/')):
                                                ('caught: ' + ', '.join(caught)) if caught else 'MISSED', (what[:110] + (' — ' + note if note else '')).replace('|', '/')))
 n_total = len(rows)
 n_str = sum(1 for d in glob.glob('/verif/seeded/*/') if 'strengthened' in json.load(open(d + 'meta.json')))
-stats = ('%d changes were delivered in seven rounds (one per property and round; '
+stats = ('%d changes were delivered in eight rounds (one per property and round; '
          'each participant was told which changes were already taken). %d were reported by the quick check as it stood when the change arrived; for the other %d '
          'the check was first strengthened (what was added is noted in the last column and in `meta.json`), after which every one of the %d '
          'is reported (`caught` lists the check/seed runs that exit 1). What the misses had in common: the proofs and models were not the '
